@@ -36,6 +36,12 @@ def external_cases(pool):
                 texts.append(("ext:read-field/" + tt, typ + 'DATA %s\r\nDIM R AS NUMS\r\nREAD R.%s\r\nPRINT "ok"\r\n' % (n, fn), ""))
                 texts.append(("ext:read-elem/" + tt, 'DATA %s\r\nDIM A%s(2)\r\nREAD A%s(1)\r\nPRINT "ok"\r\n' % (n, sf, sf), ""))
             texts.append(("ext:val-byval/" + tt, 'P VAL("%s")\r\nPRINT "ok"\r\nSUB P(X%s)\r\nY%s = X%s\r\nEND SUB\r\n' % (n, sf, sf, sf), ""))
+    # texts with more digits than a SINGLE / a DOUBLE can hold, read by VAL: an Overflow, never an infinity in a variable
+    for tt, sf in SFX.items():
+        for e in ('VAL(STRING$(39, "9"))', 'VAL(STRING$(309, "9"))', 'VAL(STRING$(400, "9"))', 'VAL("-" + STRING$(400, "9"))', 'VAL(STRING$(400, "9") + ".5")',
+                  '0 - VAL(STRING$(310, "9"))', 'VAL("0." + STRING$(400, "9"))'):
+            texts.append(("ext:val-huge/" + tt, 'T%s = 1\r\nT%s = %s\r\nPRINT "ok"\r\n' % (sf, sf, e), ""))
+            texts.append(("ext:val-huge-elem/" + tt, 'DIM A%s(1)\r\nA%s(1) = %s\r\nPRINT "ok"\r\n' % (sf, sf, e), ""))
     # floating point results beyond the range of their type (built by repeated multiplication: no exponent literals)
     for sf, n in (("!", 45), ("#", 320)):
         grow = 'A%s = 10\r\nFOR I%% = 1 TO %d\r\n  A%s = A%s * 10\r\nNEXT\r\n' % (sf, n, sf, sf)
